@@ -13,7 +13,7 @@ def sh(cmd, **kw):
 
 
 def main():
-    ids = [a for a in sys.argv[1:] if re.match(r"C\d\d$", a)] or sorted(d for d in os.listdir(V + "/seeded") if re.match(r"C\d\d$", d))
+    ids = [a for a in sys.argv[1:] if re.match(r"C\d\d(-\d+)?$", a)] or sorted(d for d in os.listdir(V + "/seeded") if re.match(r"C\d\d(-\d+)?$", d))
     extra = {}
     for a in sys.argv[1:]:
         if a.startswith("--also="):
@@ -37,7 +37,7 @@ def main():
             continue
         caught_by = {}
         try:
-            for chk in [sid] + extra.get(sid, []):
+            for chk in [sid[:3]] + extra.get(sid, []):
                 for seed in (1, 2, 3):
                     t0 = time.time()
                     r = sh("python3 %s/check %s --tier quick --seed %d" % (V, chk, seed))
@@ -53,7 +53,7 @@ def main():
         finally:
             sh("git -C %s checkout -- ." % REPO)
         meta = {
-            "property": sid,
+            "property": sid[:3],
             "summary": am.get("summary") or am.get("change") or am.get("what") or "",
             "needs": am.get("needs") or am.get("needs_to_manifest") or am.get("manifests_when") or "",
             "source": "written by a fresh sub-agent that was given only the property text and a scratch worktree of the repository "
@@ -62,16 +62,28 @@ def main():
             "rebased": os.path.exists(d + "/patch.original.diff"),
             "ran": ran,
             "caught_by": caught_by,
-            "caught": bool(caught_by.get(sid)),
+            "caught": bool(caught_by.get(sid[:3])),
         }
         json.dump(meta, open(d + "/meta.json", "w"), indent=1)
-        rows.append((sid, "yes" if caught_by.get(sid) else "NO", ", ".join("%s (seed %d): %s" % (c, v["seed"], " ".join(v["signatures"][:2])) for c, v in caught_by.items()),
+        rows.append((sid, "yes" if caught_by.get(sid[:3]) else "NO", ", ".join("%s (seed %d): %s" % (c, v["seed"], " ".join(v["signatures"][:2])) for c, v in caught_by.items()),
                      meta["summary"][:160]))
-    if len(ids) > 1:
-        with open(V + "/seeded/RESULTS.md", "w") as f:
-            f.write("# Seeded changes against repo %s\n\n| seed | caught by own check | firing check(s) and signatures | change |\n|---|---|---|---|\n" % head)
-            for r in rows:
-                f.write("| %s | %s | %s | %s |\n" % tuple(x.replace("|", "\\|") for x in r))
+    # the table covers every stored seed (results of earlier runs are read back from their meta.json)
+    allrows = []
+    for d in sorted(os.listdir(V + "/seeded")):
+        mp = "%s/seeded/%s/meta.json" % (V, d)
+        if not os.path.exists(mp):
+            continue
+        m = json.load(open(mp))
+        cb = m.get("caught_by", {})
+        allrows.append((d, "yes" if m.get("caught") else "NO", m.get("applies_to_repo_head", "?"),
+                        "; ".join("%s (seed %d): %s" % (c, v["seed"], " ".join(v["signatures"][:2])) for c, v in cb.items()),
+                        (m.get("summary") or "")[:200]))
+    with open(V + "/seeded/RESULTS.md", "w") as f:
+        f.write("# Seeded changes\n\n`<id>` = first round, `<id>-2` = second round (a different mechanism for the same property). Re-run with "
+                "`tools/run_seeds.py [ids]` (patches /repo, runs the property's quick check with seeds 1..3 until it fires, reverts).\n\n"
+                "| seed | caught by own check | repo HEAD | firing check(s) and signatures | change |\n|---|---|---|---|---|\n")
+        for r in allrows:
+            f.write("| %s | %s | %s | %s | %s |\n" % tuple(x.replace("|", "\\|").replace("\n", " ") for x in r))
     left = sh("git -C %s status --porcelain -uno" % REPO).stdout.strip()
     if left:
         print("WARNING: repo left dirty:", left)
